@@ -301,3 +301,71 @@ CORPUS += [
     V("C09", "eq-kopt-rename", TSPE, "now_bsf", "best_now", None, count=99),
     V("C09", "eq-kopt-where-flipped", TSPE, "now_bsf = torch.where(new_obj < cost_bsf, new_obj, cost_bsf)", "now_bsf = torch.where(cost_bsf > new_obj, new_obj, cost_bsf)", None),
 ]
+
+DECP = "rl4co/utils/decoding.py"
+CORPUS += [
+    # ---------------------------------------------------------------- C10
+    V("C10", "mask-before-tanh", DECP, '''    # Tanh clipping from Bello et al. 2016
+    if tanh_clipping > 0:
+        logits = torch.tanh(logits) * tanh_clipping
+
+    # In RL, we want to mask the logits to prevent the agent from selecting infeasible actions
+    if mask_logits:
+        assert mask is not None, "mask must be provided if mask_logits is True"
+        logits[~mask] = float("-inf")
+''', '''    # In RL, we want to mask the logits to prevent the agent from selecting infeasible actions
+    if mask_logits:
+        assert mask is not None, "mask must be provided if mask_logits is True"
+        logits = logits.masked_fill(~mask, float("-inf"))
+
+    # Tanh clipping from Bello et al. 2016
+    if tanh_clipping > 0:
+        logits = torch.tanh(logits) * tanh_clipping
+''', "C10.a"),
+    V("C10", "mask-after-topk", DECP, '''    if mask_logits:
+        assert mask is not None, "mask must be provided if mask_logits is True"
+        logits[~mask] = float("-inf")
+
+    logits = logits / temperature  # temperature scaling
+
+    if top_k > 0:
+        top_k = min(top_k, logits.size(-1))  # safety check
+        logits = modify_logits_for_top_k_filtering(logits, top_k)
+''', '''    logits = logits / temperature  # temperature scaling
+
+    if top_k > 0:
+        top_k = min(top_k, logits.size(-1))  # safety check
+        logits = modify_logits_for_top_k_filtering(logits, top_k)
+
+    if mask_logits:
+        assert mask is not None, "mask must be provided if mask_logits is True"
+        logits[~mask] = float("-inf")
+''', "C10.a"),
+    V("C10", "mask-fill-zero", DECP, '        logits[~mask] = float("-inf")\n', "        logits[~mask] = 0.0\n", "C10.b"),
+    V("C10", "mask-polarity", DECP, '        logits[~mask] = float("-inf")\n', '        logits[mask] = float("-inf")\n', "C10.b"),
+    V("C10", "topk-nonstrict", DECP, "indices_to_remove = logits < torch.topk(logits, top_k)[0][..., -1, None]", "indices_to_remove = logits <= torch.topk(logits, top_k)[0][..., -1, None]", "C10.b"),
+    V("C10", "topk-first-instead-of-kth", DECP, "torch.topk(logits, top_k)[0][..., -1, None]", "torch.topk(logits, top_k)[0][..., 0, None]", "C10.b"),
+    V("C10", "topp-descending", DECP, "torch.sort(logits, descending=False)", "torch.sort(logits, descending=True)", "C10.b"),
+    V("C10", "topp-strict", DECP, "sorted_indices_to_remove = cumulative_probs <= (1 - top_p)", "sorted_indices_to_remove = cumulative_probs <= top_p", "C10.b"),
+    V("C10", "topp-fill-zero", DECP, '    return logits.masked_fill(indices_to_remove, float("-inf"))\n\n\ndef process_logits(', "    return logits.masked_fill(indices_to_remove, 0.0)\n\n\ndef process_logits(", "C10.b"),
+    V("C10", "softmax-wrong-dim", DECP, "return F.log_softmax(logits, dim=-1)", "return F.log_softmax(logits, dim=0)", "C10.a"),
+    V("C10", "greedy-argmin", DECP, "selected = logprobs.argmax(dim=-1)", "selected = logprobs.argmin(dim=-1)", "C10.c"),
+    V("C10", "sampling-from-logprobs", DECP, "probs = logprobs.exp()", "probs = logprobs.abs()", "C10.c"),
+    V("C10", "greedy-guard-removed", DECP, '''        if mask is not None:
+            assert (
+                not (~mask).gather(1, selected.unsqueeze(-1)).data.any()
+            ), "infeasible action selected"
+
+        return selected
+
+    @staticmethod
+    def sampling''', '''        return selected
+
+    @staticmethod
+    def sampling''', "C10.c"),
+    V("C10", "step-swaps-topk-topp", DECP, "            top_p=self.top_p,\n            top_k=self.top_k,", "            top_p=self.top_k,\n            top_k=self.top_p,", "C10.d"),
+    V("C10", "step-drops-mask", DECP, "        logprobs = process_logits(\n            logits,\n            mask,", "        logprobs = process_logits(\n            logits,\n            None,", "C10.d"),
+    V("C10", "eq-mask-out-of-place", DECP, '        logits[~mask] = float("-inf")\n', '        logits = logits.masked_fill(~mask, float("-inf"))\n', None),
+    V("C10", "eq-topk-flipped", DECP, "indices_to_remove = logits < torch.topk(logits, top_k)[0][..., -1, None]", "indices_to_remove = torch.topk(logits, top_k)[0][..., -1, None] > logits", None),
+    V("C10", "eq-rename", DECP, "indices_to_remove", "drop", None, count=99),
+]
